@@ -102,8 +102,21 @@ def src(e, ren=None):
     raise ValueError(f"unknown expression {e!r}")
 
 
+_FN_CACHE = {}
+
+
 def make_fn(args, e, fname="f"):
     """A real Python function with exactly the positional parameters p0..pn (exec'd)."""
+    key = (tuple(args), repr(e), fname)
+    if key in _FN_CACHE:
+        return _FN_CACHE[key]
+    fn = _make_fn(args, e, fname)
+    if len(_FN_CACHE) < 200000:
+        _FN_CACHE[key] = fn
+    return fn
+
+
+def _make_fn(args, e, fname="f"):
     ren = {a: f"p{i}" for i, a in enumerate(args)}
     # repeated model arguments get distinct python parameters; the first occurrence is used
     params = [f"p{i}" for i in range(len(args))]
